@@ -404,6 +404,37 @@ def node_at(model, path):
     return model
 
 
+def clone(cx, node):
+    """a second map with the same layout (same names, same kinds) but its own handle and map objects"""
+    twin = Node(cx.map())
+    for k, v in node.kids.items():
+        if isinstance(v, Node):
+            sub = clone(cx, v)
+            twin.real[k] = sub.real
+            twin.kids[k] = sub
+        else:
+            h = cx.handle()
+            twin.real[k] = h
+            twin.kids[k] = h
+    return twin
+
+
+def distinct(sp, sa, sb, na, nb, prefix):
+    """snapshots of two different maps with the same layout must hand out each map's own handles"""
+    for k in sorted(na.kids):
+        a, b = probe(lambda: sa.get(k)), probe(lambda: sb.get(k))
+        if a[0] != 'value' or b[0] != 'value':
+            continue                    # reported by the mirror comparison
+        if isinstance(na.kids[k], Node):
+            if isinstance(a[1], StaticResourceMap) and isinstance(b[1], StaticResourceMap):
+                distinct(sp, a[1], b[1], na.kids[k], nb.kids[k], prefix + (k,))
+        else:
+            sp.check(a[1] is not b[1], 'twin-snapshots-independent',
+                     'snapshots of two different maps with the same names hand out the same handle %r at %r' % (
+                         a[1], '/'.join(prefix + (k,))))
+            sp.cover('twin-handle-compared')
+
+
 def all_handles(model):
     """every handle of the model tree once, deterministic order"""
     out, seen = [], set()
@@ -487,7 +518,7 @@ def compare_frozen(sp, snap, frozen, prefix, when):
     sp.cover('old-snapshot-rechecked')
 
 
-def h_static(sp, levels=((NAMES, 2), (SUB4, 2), (SUB2, 1)), rots=1, mutate=False, flavours=('plain',), alias=False):
+def h_static(sp, levels=((NAMES, 2), (SUB4, 2), (SUB2, 1)), rots=1, mutate=False, flavours=('plain',), alias=False, twin=False):
     levels = [(list(lv[0]),) + tuple(lv[1:]) for lv in levels]
     rot = sp.choose(rots, 'value-rotation')
     flavour = sp.pick(list(flavours), 'flavour')       # instance flavour of every handle and map object
@@ -498,6 +529,19 @@ def h_static(sp, levels=((NAMES, 2), (SUB4, 2), (SUB2, 1)), rots=1, mutate=False
     model = build(sp, cx, levels, 0, 'm')
     m = model.real
     absent_names = list(NAMES) + sorted(({n for lv in levels for n in lv[0]} | {'b_c', 'n_w', '_1x'}) - set(NAMES))
+    if twin:
+        # two coexisting maps with the same layout: each snapshot mirrors its own map.  The independence check
+        # comes first so that it is the clause that fires (and replays) when snapshots are mixed up
+        if not any(isinstance(v, ValHandle) for v in model.kids.values()):
+            sp.assume(False)            # a root-level handle makes the independence check bite on every path
+        other = clone(cx, model)
+        sa, sb = take(sp, m, 'first map'), take(sp, other.real, 'twin map')
+        distinct(sp, sa, sb, model, other, ())
+        compare(sp, sb, other, other.real, (), 'snapshot of the twin map', absent_names)
+        compare(sp, sa, model, m, (), 'snapshot of the first map (taken before the twin\'s)', absent_names)
+        sp.cover('twin-maps')
+        if any(isinstance(v, Node) for v in model.kids.values()):
+            sp.cover('twin-maps-nested')
     try:
         snap = m.get_static_map()
     except Exception as ex:         # noqa
@@ -574,6 +618,9 @@ _TAGS = ['attack-on-uncached-handle-name', 'attack-on-cached-handle-name', 'laye
 HARNESSES = {
     'static': dict(fn=h_static, nontrivial=_TAGS + ['nested-mutation-resnapshot', 'root-mutation-resnapshot'],
                    required=_TAGS),
+    # same function, explored in-process and first: two coexisting maps with the same layout (a defect that mixes
+    # up snapshots of different maps would otherwise first show as a cross-path effect that does not replay)
+    'twin': dict(fn=h_static, nontrivial=['twin-maps-nested'], required=['twin-maps'], split=False),
 }
 
 _MUT_TAGS = ['old-snapshot-rechecked', 'old-snapshot-after-add', 'old-snapshot-after-replace',
@@ -592,13 +639,15 @@ _SAN_REQ = ['sanitised-name-collision', 'sanitised-collision-handles', 'sanitise
             'sanitised-collision-handle-vs-map', 'sanitised-collision-identifier-first',
             'sanitised-collision-identifier-last', 'attack-on-uncached-handle-name', 'layered', 'non-identifier',
             'attr-access', 'handle-compared', 'deep-handle-compared', 'submap-compared', 'attacked-submap']
+_TWIN_REQ = ['twin-maps', 'twin-maps-nested', 'twin-handle-compared', 'handle-compared', 'submap-compared', 'layered']
 _FLAV_REQ = _TAGS + ['flavour-falsy', 'flavour-empty', 'flavour-equal']
 _MANGLE_REQ = ['attack-on-uncached-handle-name', 'attack-on-cached-handle-name', 'layered', 'mangling-style', 'mangling-style-all-identifiers', 'mangled-with-one-trailing-underscore',
                'only-underscores', 'dunder-style', 'attr-access', 'handle-compared', 'deep-handle-compared',
                'falsy-resource', 'submap-compared', 'attacked', 'attacked-submap']
 
 TIERS = {
-    'quick': [('static', dict(levels=[[NAMES, 2], [SUB3B, 2], [SUB2, 1]], rots=1)),
+    'quick': [('twin', dict(levels=[[['a', 'b c', '__x'], 2], [SUB2, 1]], rots=1, twin=True), {'required': _TWIN_REQ}),
+              ('static', dict(levels=[[NAMES, 2], [SUB3B, 2], [SUB2, 1]], rots=1)),
               # mangling shapes: every sibling is an identifier, so no __dict__ rescues a wrongly declared slot
               ('static', dict(levels=[[MANGLE, 2], [MANGLE6, 1]], rots=1), {'required': _MANGLE_REQ}),
               ('static', dict(levels=[[['a', 'b c'], 2], [SUB3B, 2], [SUB2, 1]], rots=1, mutate=True),
@@ -608,7 +657,8 @@ TIERS = {
               # names that collide after replacing non-word characters by '_', handles and sub-maps, both orders
               ('static', dict(levels=[[SAN, 2, 'ordered'], [['b c', 'b_c'], 2, 'ordered']], rots=1),
                {'required': _SAN_REQ})],
-    'thorough': [('static', dict(levels=[[NAMES, 3], [SUB3B, 2], [SUB2, 1]], rots=1)),
+    'thorough': [('twin', dict(levels=[[NAMES, 2], [SUB2, 1]], rots=1, twin=True), {'required': _TWIN_REQ}),
+                 ('static', dict(levels=[[NAMES, 3], [SUB3B, 2], [SUB2, 1]], rots=1)),
                  ('static', dict(levels=[[SUB5, 2], [SUB5, 2], [SUB3, 1]], rots=1)),
                  ('static', dict(levels=[[NAMES, 2], [SUB3B, 2], [SUB2, 1]], rots=3)),
                  ('static', dict(levels=[[MANGLE, 3], [MANGLE6, 2]], rots=1), {'required': _MANGLE_REQ}),
@@ -667,6 +717,8 @@ BOUNDS = {
                 "of the 10 names with spine <=1 of a,__x and third level <=1 of a, x every mutation",
 }
 ASSUMPTIONS = [
+    'twin entries (first in each tier, so that they start in a fresh interpreter): a second map with the same '
+    'names and kinds but its own handles coexists; both are snapshotted and each snapshot must mirror its own map',
     'aliasing entries: one ResourceMap object is stored under two owners (another root map, the same parent under '
     'a second name, or a sibling sub-map); snapshots are always taken from the first owner (and from the other '
     'root) and must mirror what the map itself answers at the time of the call; nothing is assumed about '
